@@ -144,9 +144,27 @@ def _in_loop(b, bb):
     return bb in b.reach_after(bb)
 
 
+def r3b_word_reads_the_cell_every_time(cx):
+    """a deferred value (`Word`) bound to an entry position is read several times while the position still changes
+    (sort comparator, then column sizing, then writing): `Word::get` must evaluate the closure at every call -- no
+    memoised copy in the Word"""
+    F = cx.F
+    g = F.one(impl_self="delayed::Word", item="get", closure=False)
+    b = F.body(g)
+    fc = b.calls(r"as std::ops::Fn<\(\)>>::call$")
+    memo = [callee_str(t).split("::<")[0].split("::")[-2:] for i, t in b.calls(r"OnceLock|OnceCell|LazyLock|LazyCell|Cell<|RefCell|Mutex|RwLock|Atomic|Option::<.*>::(get_or_insert|insert|replace|take)")]
+    ok = len(fc) == 1 and ("call", fc[0][0]) in b.origins(0) and not memo
+    cx.ob("R3", "R3/Word.get/evaluates-the-closure", ok, g, "Word::get returns the result of calling the stored closure, with no cached value (memo calls: %s)" % memo)
+    st = F.struct("delayed::Word")
+    state = [f_["name"] for f_ in st["fields"] if re.search(r"Once|Lazy|Cell|Mutex|RwLock|Atomic|Option<", f_["ty"])]
+    cx.ob("R3", "R3/Word/no-memo-field", not state and any("dyn std::ops::Fn()" in f_["ty"] for f_ in st["fields"]), "(struct bases::types::delayed::Word)",
+          "Word holds the closure and no memoisation state (fields with interior state: %s)" % state)
+
+
 RULES = [
     ("R1", r1_reindex, 7),
     ("R2", r2_index_is_position, 2),
     ("R3", r3_shared_cell, 6),
+    ("R3", r3b_word_reads_the_cell_every_time, 2),
     ("R4", r4_value_ids, 3),
 ]
